@@ -82,6 +82,9 @@ func runFloat(sw *shardWriter, j *jb, input []byte, st *genStats) (tier int, wid
 	j.raw(`,"unch":`)
 	j.b01(bytes.Equal(orig, input))
 	j.raw(`}`)
+	if panics > 0 {
+		j.panicEvent("float", input)
+	}
 	if sw != nil {
 		sw.write(j.b)
 	}
@@ -221,11 +224,11 @@ func genFloats(c *genCtx) error {
 		case 0:
 			x = math.Float64frombits(c.rng.Uint64() & 0x7fefffffffffffff)
 		case 1:
-			x = math.Float64frombits(uint64(rp(2046)+1)<<52 | uint64(rp(4)))            // just above a power of two
+			x = math.Float64frombits(uint64(rp(2046)+1)<<52 | uint64(rp(4))) // just above a power of two
 		case 2:
 			x = math.Float64frombits(uint64(rp(2046)+1)<<52 | (1<<52 - 1 - uint64(rp(4)))) // just below
 		case 3:
-			x = math.Float64frombits(uint64(1 + rp(1<<20)))                              // subnormals
+			x = math.Float64frombits(uint64(1 + rp(1<<20))) // subnormals
 		default:
 			x = math.Ldexp(float64(1+rp(1<<30)), rp(200)-100)
 		}
@@ -326,7 +329,12 @@ func genFloats(c *genCtx) error {
 		for t := 0; t < tries && found < 2; t++ {
 			s := fmt.Sprintf("%de%d", c.rng.Uint64()>>uint(rp(12)), e)
 			lastTier, sawWide = 0, false
-			rjson.ReadFloat64([]byte(s))
+			probePanics := 0
+			guardPanic(&probePanics, func() { rjson.ReadFloat64([]byte(s)) })
+			if probePanics > 0 {
+				withFollow(s) // recorded (and reported) through the guarded observer
+				break
+			}
 			if sawWide {
 				found++
 				withFollow(s)
